@@ -47,7 +47,9 @@ fn vcoord(i: usize) -> (f32, f32) {
 struct Variant {
     gzip: bool,
     order: usize,
-    extra_column: bool,
+    /// 0 = none; 1 = a name column in second place; 2 = a free-text column in FIRST place whose values start with '#', '-', a
+    /// space or a quote (a record is whatever the rows say, wherever its text begins), and in the edge file likewise
+    extra_column: u8,
     /// which of the two optional counts are given: (edges, vertices)
     counts_given: (bool, bool),
     edge_extra_column: bool,
@@ -55,12 +57,25 @@ struct Variant {
     trailing_newline: bool,
 }
 
+/// free text of row i: ordinary CSV fields that begin with a character some readers treat specially
+fn free_text(i: usize) -> String {
+    match i % 5 {
+        0 => format!("plain {}", i),
+        1 => format!("#{} fire station", i),
+        2 => format!("\"depot {}, east gate\"", i),
+        3 => format!("-{}", i),
+        _ => format!(" {}", i),
+    }
+}
+
 fn write_graph(dir: &Path, net: &Net, v: &Variant) -> (String, String) {
     let ext = if v.gzip { ".csv.gz" } else { ".csv" };
     let cols = ORDERS[v.order];
     let mut header: Vec<String> = cols.iter().map(|s| s.to_string()).collect();
-    if v.extra_column {
+    if v.extra_column == 1 {
         header.insert(1, "name".to_string());
+    } else if v.extra_column == 2 {
+        header.insert(0, "note".to_string());
     }
     let mut vs = header.join(",") + "\n";
     for i in 0..net.n {
@@ -73,8 +88,10 @@ fn write_graph(dir: &Path, net: &Net, v: &Variant) -> (String, String) {
                 _ => format!("{}", y),
             })
             .collect();
-        if v.extra_column {
+        if v.extra_column == 1 {
             row.insert(1, format!("v{}", i));
+        } else if v.extra_column == 2 {
+            row.insert(0, free_text(i));
         }
         vs.push_str(&(row.join(",") + "\n"));
     }
@@ -83,9 +100,11 @@ fn write_graph(dir: &Path, net: &Net, v: &Variant) -> (String, String) {
         vs.pop();
     }
     write(&vp, &vs, v.gzip);
-    let mut es = String::from(if v.edge_extra_column { "edge_id,src_vertex_id,dst_vertex_id,distance,road_name\n" } else { "edge_id,src_vertex_id,dst_vertex_id,distance\n" });
+    let mut es = String::from(if v.extra_column == 2 { "road_name,edge_id,src_vertex_id,dst_vertex_id,distance\n" } else if v.edge_extra_column { "edge_id,src_vertex_id,dst_vertex_id,distance,road_name\n" } else { "edge_id,src_vertex_id,dst_vertex_id,distance\n" });
     for (i, (s, d, l)) in net.edges.iter().enumerate() {
-        if v.edge_extra_column {
+        if v.extra_column == 2 {
+            es.push_str(&format!("{},{},{},{},{}\n", free_text(i + 1), i, s, d, l));
+        } else if v.edge_extra_column {
             es.push_str(&format!("{},{},{},{},r{}\n", i, s, d, l, i));
         } else {
             es.push_str(&format!("{},{},{},{}\n", i, s, d, l));
@@ -253,7 +272,7 @@ pub fn run(tier: Tier) -> i32 {
     let mut variants = vec![];
     for gzip in [false, true] {
         for order in 0..6 {
-            for extra_column in [false, true] {
+            for extra_column in [0u8, 1, 2] {
                 for counts_given in [(true, true), (false, false), (true, false), (false, true)] {
                     for trailing_newline in [true, false] {
                         variants.push(Variant { gzip, order, extra_column, counts_given, edge_extra_column: order % 2 == 1, trailing_newline });
@@ -268,7 +287,7 @@ pub fn run(tier: Tier) -> i32 {
             st.nontrivial += 1;
         }
         // structured nets: every variant; enumerated nets: a rotating pair of variants (plain and gzip)
-        let vs: Vec<&Variant> = if name.starts_with('G') { vec![&variants[ni % variants.len()], &variants[(ni * 7 + 97) % variants.len()], &variants[(ni * 13 + 151) % variants.len()]] } else { variants.iter().collect() };
+        let vs: Vec<&Variant> = if name.starts_with('G') { vec![&variants[ni % variants.len()], &variants[(ni * 7 + 145) % variants.len()], &variants[(ni * 13 + 227) % variants.len()]] } else { variants.iter().collect() };
         for v in vs {
             st.evaluations += 1;
             st.transitions += 1;
@@ -414,7 +433,7 @@ pub fn run(tier: Tier) -> i32 {
     finish(
         &info,
         st,
-        "state = one edge/vertex list (all G(3,m,2) multigraphs with self loops, stars and hubs with in/out degree 0..8, isolated vertices); transition = one load of files written in one variant (plain/gzip x 6 vertex column orders x extra columns x each of the two counts given or scanned (4 modes) x last row with/without trailing newline) through Graph::from_files and DefaultGraphBuilder, compared accessor by accessor with the lists; per-edge tables of 1..40 rows; bindings accessors; non-trivial = at least two edges",
+        "state = one edge/vertex list (all G(3,m,2) multigraphs with self loops, stars and hubs with in/out degree 0..8, isolated vertices); transition = one load of files written in one variant (plain/gzip x 6 vertex column orders x extra columns (none / a name in second place / free text in first place beginning with '#', '-', a space or a quote, in both files) x each of the two counts given or scanned (4 modes) x last row with/without trailing newline) through Graph::from_files and DefaultGraphBuilder, compared accessor by accessor with the lists; per-edge tables of 1..40 rows; bindings accessors; non-trivial = at least two edges",
         true,
         json!({"enumerated_family": spec.describe(), "max_degree": 8, "variants": 96}),
         vec!["vertex coordinates are written as the shortest decimal rendering of an f32, so the comparison is exact".into()],
